@@ -41,7 +41,7 @@ def main():
     t0 = time.time()
     if mode == "symbolic":
         out.update(sym.explore(fn, budget_s=job["budget"], per_path_timeout=job.get("ppt", 20.0),
-                               seed=job.get("seed", 0), reals_only=h.reals_only))
+                               seed=job.get("seed", 0), reals_only=h.reals_only, lazy_format=h.lazy_format))
     else:
         runs = []
         for args in job["vectors"]:
